@@ -151,7 +151,7 @@ func c17Bits(c *Ctx) int {
 				got, has := rs.Mem["recv."+f]
 				n++
 				if !has {
-					r.Add("BITS.L2", uname, "field "+f+" = "+sp.in[f], p.Position(rs.Ret.Pos()), false, "field is not written on this success path")
+					addOrUndecided(c, "BITS.L2", uname, "field "+f+" = "+sp.in[f], p.Position(rs.Ret.Pos()), false, "field is not written on this success path", um)
 					continue
 				}
 				checkVec(c, "BITS.L2", uname, "field "+f, p.Position(rs.Ret.Pos()), got, sp.in[f], "")
@@ -166,7 +166,7 @@ func c17Bits(c *Ctx) int {
 				}
 			})
 			n++
-			r.Add("BITS.L2", uname, "optional 64-bit offset = big-endian bytes 8..15", p.Position(um.Pos()), found, "no cell holds the big-endian value of rawData[8:16]")
+			addOrUndecided(c, "BITS.L2", uname, "optional 64-bit offset = big-endian bytes 8..15", p.Position(um.Pos()), found, "no cell holds the big-endian value of rawData[8:16]", um)
 		}
 		if nSucc == 0 {
 			r.Fatalf("BITS: %s has no success return", uname)
